@@ -420,8 +420,9 @@ func c12Subset(t *rapid.T, label string, pool []string, bias []string) []any {
 }
 
 type c12DescPlan struct {
-	target int      // wallet index the descriptor was aimed at, -1 = none
-	leaves []string // subject member (first step) each field points at, "" for top-level
+	target int              // wallet index the descriptor was aimed at, -1 = none
+	leaves []string         // subject member (first step) each field points at, "" for top-level
+	fields []map[string]any // the generated field objects, parallel to leaves (may still be edited before marshalling)
 }
 
 func c12GenField(t *rapid.T, fid string, wallet []c12Cred, target int, friendly bool) (map[string]any, string) {
@@ -698,6 +699,7 @@ func c12Gen(t *rapid.T) c12Case {
 				f, first := c12GenField(t, fmt.Sprintf("f%d_%d", d, i), c.Wallet, plan.target, friendly)
 				fields = append(fields, f)
 				plan.leaves = append(plan.leaves, first)
+				plan.fields = append(plan.fields, f)
 			}
 			// discriminate by kind so that selections are mostly unambiguous
 			if tiered {
@@ -787,12 +789,6 @@ func c12Gen(t *rapid.T) c12Case {
 		}
 		def["submission_requirements"] = reqs
 	}
-	raw, err := json.Marshal(def)
-	if err != nil {
-		t.Fatalf("HARNESS: marshal definition: %v", err)
-	}
-	c.Def = raw
-
 	// 3. near-matching credentials derived from targets, and decoys
 	for d, plan := range plans {
 		if plan.target < 0 || len(c.Wallet) >= 6 {
@@ -811,11 +807,26 @@ func c12Gen(t *rapid.T) c12Case {
 				members = append(members, l)
 			}
 		}
-		mode := rapid.SampledFrom([]string{"claim", "claim", "claim", "format", "proof", "kind", "same"}).Draw(t, "nearmode")
+		mode := rapid.SampledFrom([]string{"claim", "claim", "claim", "format", "proof", "kind", "same", "optional-object"}).Draw(t, "nearmode")
+		// "optional-object": a field with a filter on a single-step claim becomes optional and the near credential
+		// carries an object there: a present value that violates the filter, which "optional" must not excuse
+		var objCandidates []int
+		for i, l := range plan.leaves {
+			if i < len(plan.fields) && strings.HasPrefix(l, ".") && strings.Count(l, ".") == 1 && !strings.Contains(l, "[") && plan.fields[i]["filter"] != nil {
+				objCandidates = append(objCandidates, i)
+			}
+		}
+		if mode == "optional-object" && len(objCandidates) == 0 {
+			mode = "claim"
+		}
 		if mode == "claim" && len(members) == 0 {
 			mode = "proof"
 		}
 		switch mode {
+		case "optional-object":
+			i := rapid.SampledFrom(objCandidates).Draw(t, "objfield")
+			plan.fields[i]["optional"] = true
+			near.Subject[plan.leaves[i][1:]] = map[string]any{"name": c12Str(t, "objname"), "value": c12Str(t, "objvalue")}
 		case "claim":
 			c12MutateClaim(t, near.Subject, rapid.SampledFrom(members).Draw(t, "member"))
 		case "format":
@@ -853,6 +864,12 @@ func c12Gen(t *rapid.T) c12Case {
 		copy(c.Wallet[pos+1:], c.Wallet[pos:])
 		c.Wallet[pos] = dc
 	}
+
+	raw, err := json.Marshal(def)
+	if err != nil {
+		t.Fatalf("HARNESS: marshal definition: %v", err)
+	}
+	c.Def = raw
 
 	// 4. envelope shape and forgeries
 	c.Env = rapid.SampledFrom([]string{"ld", "ld", "ld", "jwt", "jwt", "ld-array", "jwt-array"}).Draw(t, "env")
